@@ -1,7 +1,7 @@
 (** C03 — property theorems: statements (as printed by Coq) closed by [exact]. *)
 From Coq Require Import ZArith QArith List.
 From KV Require Import Base.Outcome Base.Num C19.Model C19.ProofsEasing C06.Model C06.Dur C06.Proofs C06.Proofs2
-  C03.Model C03.ProofsInner C03.ProofsLife C03.ModelStream C03.ProofsStream.
+  C03.Model C03.ProofsInner C03.ProofsLife C03.ModelStream C03.ProofsStream C03.ProofsBoundary.
 Import ListNotations.
 Local Open Scope Q_scope.
 
@@ -546,3 +546,65 @@ Theorem publish_per_buffer_refuted :
    sprocess powf0 amp_lin w_unpublished len dt i = Ok (s', outs) -> s_mirror s' = 0%Z) /\
   mirror_ok (qnew_from (inner_ended 4 false) Immediate None).
 Proof. exact @publish_per_buffer_refuted_w. Qed.
+
+(** *** several commands issued at one callback boundary (no callback between them): [drained m c] is the
+    state manager after pause, resume, stop of [c] were read in the code's order; the command read last
+    decides, and what the handle's mirror showed while the commands were issued plays no part *)
+
+Theorem same_boundary_drain_static :
+  forall (s : sound Q Q) (c : commands Q),
+       s_psm (son_start s c) = drained (s_psm s) c.
+Proof. exact @on_start_psm. Qed.
+
+Theorem same_boundary_drain_stream :
+  forall (s : stream Q Q) (c : commands Q),
+       st_psm (zon_start s c) = drained (st_psm s) c.
+Proof. exact @stream_on_start_psm. Qed.
+
+Theorem same_boundary_resume_last :
+  forall (m : psm Q Q) (c : commands Q) (tr : tween Q),
+       ps m <> Stopped ->
+       c_resume c = Some (Immediate, tr) ->
+       c_stop c = None ->
+       ps (drained m c) = Resuming /\
+       p_raw (fade (drained m c)) = p_raw (fade m) /\
+       drained m c =
+       presume match c_pause c with
+               | Some tw => ppause m tw
+               | None => m
+               end Immediate tr.
+Proof. exact @drained_resume_last. Qed.
+
+Theorem same_boundary_pause_resume_lifecycle :
+  forall (powf : Q -> Q -> Q) (m : psm Q Q) (c : commands Q)
+         (tr : tween Q) (l : list (Q * info Q)),
+       ps m <> Stopped ->
+       c_resume c = Some (Immediate, tr) ->
+       c_stop c = None ->
+       not_delayed (tw_start tr) ->
+       tw_dur tr <> 0%Z ->
+       let D := ns_to_secs_Q (tw_dur tr) in
+       ps (drained m c) = Resuming /\
+       (exists m' : psm Q Q,
+          prun powf (drained m c) l = Ok m' /\
+          (if completes (tw_start tr) D 0 l
+           then ps m' = Playing /\ p_raw (fade m') = identityQ
+           else
+            ps m' = Resuming /\
+            (l <> [] ->
+             p_raw (fade m') =
+             the_law powf (p_raw (fade m)) identityQ 
+               (tw_easing tr) D (elapsed (tw_start tr) 0 l)))).
+Proof. exact @boundary_pause_resume_lifecycle. Qed.
+
+Theorem same_boundary_stop_last :
+  forall (m : psm Q Q) (c : commands Q) (ts : tween Q),
+       ps m <> Stopped -> c_stop c = Some ts -> ps (drained m c) = Stopping.
+Proof. exact @drained_stop_last. Qed.
+
+Theorem same_boundary_pause_only :
+  forall (m : psm Q Q) (c : commands Q) (tp : tween Q),
+       ps m <> Stopped ->
+       c_pause c = Some tp ->
+       c_resume c = None -> c_stop c = None -> ps (drained m c) = Pausing.
+Proof. exact @drained_pause_only. Qed.
